@@ -512,6 +512,25 @@ class C13(Prop):
     # ================================================================ generation: seq
     def gen_seq(self, rng, thrash):
         """sequences of different inputs on one scanner; reference = a scanner compiled for that one scan"""
+        if thrash == "early_exit":
+            # scans that leave do_scan after the string scan but before every rule is evaluated (a global rule that
+            # needs its string and is false), on inputs WITH matches, followed by inputs without them
+            lines = ['global rule g { strings: $g = "good" condition: $g }',
+                     'rule a { strings: $a = "malware" condition: $a }',
+                     'rule b { strings: $b = /evil[0-9]+/ condition: #b == 1 }',
+                     'rule c { strings: $c = "xx" $d = "yy" condition: #c >= 1 or $d }']
+            parts = [b"malware", b"evil123", b"evil7", b"xx", b"yy", b"filler", b"0123"]
+            def mk(good):
+                ws = [rng.choice(parts) for _ in range(rng.range(0, 5))] + ([b"good"] if good else [])
+                return b" ".join(rng.shuffle(ws)) or b"-"
+            inputs = [mk(False), b"this one is good", mk(True), mk(False), mk(True)][:rng.range(3, 5)]
+            inputs[0] = b"xx malware evil123 xx"
+            order = [0, 1, 1] + [rng.below(len(inputs)) for _ in range(rng.range(3, 9))]
+            case = {"kind": "seq", "family": "early_exit", "rules": [{"ns": None, "src": "\n".join(lines)}],
+                    "inputs": [b.hex() for b in inputs], "order": order, "reuse_buffer": rng.chance(1, 2)}
+            if rng.chance(1, 3):
+                case["params"] = {"compute_full_matches": rng.chance(1, 2), "include_not_matched": rng.chance(1, 2)}
+            return case
         if thrash == "entrypoint":
             # `entrypoint` parses the headers of the scanned buffer: small ELF files of one length with different
             # entry points (and non-executables), read one after the other into ONE buffer
@@ -677,7 +696,8 @@ class C13(Prop):
                 "rules2": [{"ns": None, "src": "\n".join(lines2)}], "outer": outer, "inner": inner,
                 "target": rng.choice(["same", "same", "clone", "other"]), "inner_api": api,
                 "at": rng.choice([[1], [1], [], [2], [1, 3]]), "deeper": api == "callback" and rng.chance(1, 2),
-                "params": params, "same_input": X == Y}
+                "params": params, "same_input": X == Y,
+                "file_api": rng.chance(1, 2)}      # through scan_file / scan_file_with_callback (scratch files)
 
     # ================================================================ generation: script
     def gen_script(self, rng):
@@ -685,7 +705,25 @@ class C13(Prop):
         h = lambda alg, d: getattr(hashlib, alg)(d).hexdigest()
         inputs = [rng.bytes(rng.range(8, 60), b"abcdefgh 0123") for _ in range(rng.range(2, 4))]
         inputs.append(b"sevenby")                       # filesize == 7: the global rule is false, every namespace disabled
-        family = rng.choice(["timeout", "timeout", "console_panic"])
+        family = rng.choice(["timeout", "timeout", "console_panic", "early_abort"])
+        if family == "early_abort":
+            # a callback that aborts at the first event of a scan whose strings matched, then other inputs on the same
+            # scanner and on a clone
+            lines = ['rule g { strings: $g = "good" condition: $g }',
+                     'rule a { strings: $a = "malware" condition: $a }',
+                     'rule b { strings: $b = /evil[0-9]+/ condition: #b == 1 }']
+            inputs = [b"good xx malware evil123 xx", b"this one is good", b"nothing", b"evil9 good"]
+            steps = [{"op": "clone", "from": "s", "to": "c"}]
+            if rng.chance(1, 3):
+                steps.append({"op": "params", "on": rng.choice(["s", "c"]), "params": {"compute_full_matches": True}})
+            for _ in range(rng.range(2, 4)):
+                steps.append({"op": "scan", "on": rng.choice(["s", "c"]), "input": rng.choice([0, 0, 3]), "api": "abort"})
+                for _ in range(rng.range(1, 3)):
+                    steps.append({"op": "scan", "on": rng.choice(["s", "c"]), "input": rng.choice([1, 1, 2, 3]),
+                                  "api": rng.choice(["list", "callback"])})
+            return {"kind": "script", "family": family, "rules": [{"ns": None, "src": "\n".join(lines)}],
+                    "inputs": [b.hex() for b in inputs] + [b"sevenby".hex()], "steps": steps,
+                    "must": [["g"], ["g"], [], ["g"], []]}
         with_strings = rng.chance(1, 3)
         lines = ['import "hash"', 'import "console"', "global rule g { condition: filesize != 7 }"]
         for k, d in enumerate(inputs):
@@ -757,7 +795,7 @@ class C13(Prop):
             elif k == 16:
                 out.append(self.gen_nest(r))
             elif k == 17:
-                out.append(self.gen_seq(r, False))
+                out.append(self.gen_seq(r, False if i % 40 == 17 else "early_exit"))
             elif k == 18:
                 out.append(self.gen_seq(r, "buffer" if i % 40 == 18 else "entrypoint"))
             elif i % 40 == 19:
@@ -805,6 +843,7 @@ class C13(Prop):
                 ctx.count("script family=" + c.get("family", "?"))
             elif c["kind"] == "nest":
                 ctx.count("nest target=" + c["target"])
+                ctx.count("nest file_api=%s" % bool(c.get("file_api")))
                 ctx.count("nest inner api=" + c["inner_api"] + ("+deeper" if c.get("deeper") else ""))
             elif c["kind"] == "seq":
                 ctx.count("seq reuse_buffer=%s" % bool(c.get("reuse_buffer")))
